@@ -67,12 +67,15 @@ type codec struct {
 	utf8     bool
 }
 
+// newCodec: the reference encoder / decoder of a charset NAME.  It comes from the harness's own name table
+// (refcharsets.go), never from tcell.GetEncoding: the registry of the code under test is part of what is judged (a name
+// registered with another charset's table).  nil when the name is unknown to either side.
 func newCodec(charset string) *codec {
-	e := tcell.GetEncoding(charset)
-	if e == nil {
+	e := refEncoding(charset)
+	if e == nil || tcell.GetEncoding(charset) == nil {
 		return nil
 	}
-	return &codec{enc: e.NewEncoder(), dec: e.NewDecoder(), utf8: strings.EqualFold(charset, "UTF-8")}
+	return &codec{enc: e.NewEncoder(), dec: e.NewDecoder(), utf8: refIsUTF8(charset)}
 }
 
 // encode calls the external encoder directly, exactly like encoder.Transform(nb, utf8(r), true) on a fresh buffer.
@@ -625,35 +628,34 @@ func genEnc(g *h.Gen) {
 		}
 	}
 	// 1. sweeps: xterm (has an ACS map) over the BMP; an entry without ACS map and vt220 (padding in smacs) over the special runes
+	emitSweep := func(cs string, cd *codec, entry string, runes []int, tw int) {
+		for i := 0; i < len(runes); {
+			var ops []string
+			ops = append(ops, fmt.Sprintf("cfg %s %s %s %d", v, entry, cs, tw))
+			for k := 0; k < 4 && i < len(runes); k++ {
+				// maximal arithmetic run of at most 64 runes
+				j, step := i+1, 1
+				if j < len(runes) {
+					step = runes[j] - runes[i]
+				}
+				for j < len(runes) && j-i < 64 && runes[j]-runes[j-1] == step {
+					j++
+				}
+				rs := make([]rune, j-i)
+				for q := range rs {
+					rs[q] = rune(runes[i+q])
+				}
+				x := r.Range(0, tw-2)
+				ops = append(ops, fmt.Sprintf("B %d %d %d %d %s", x, runes[i], step, j-i, encList(cd, rs)))
+				i = j
+			}
+			g.Emit("enc %s", strings.Join(ops, "; "))
+		}
+	}
 	for ci, cs := range charsets {
 		cd := newCodec(cs)
 		if cd == nil {
 			continue
-		}
-		cs := cs
-		emitSweep := func(entry string, runes []int, tw int) {
-			for i := 0; i < len(runes); {
-				var ops []string
-				ops = append(ops, fmt.Sprintf("cfg %s %s %s %d", v, entry, cs, tw))
-				for k := 0; k < 4 && i < len(runes); k++ {
-					// maximal arithmetic run of at most 64 runes
-					j, step := i+1, 1
-					if j < len(runes) {
-						step = runes[j] - runes[i]
-					}
-					for j < len(runes) && j-i < 64 && runes[j]-runes[j-1] == step {
-						j++
-					}
-					rs := make([]rune, j-i)
-					for q := range rs {
-						rs[q] = rune(runes[i+q])
-					}
-					x := r.Range(0, tw-2)
-					ops = append(ops, fmt.Sprintf("B %d %d %d %d %s", x, runes[i], step, j-i, encList(cd, rs)))
-					i = j
-				}
-				g.Emit("enc %s", strings.Join(ops, "; "))
-			}
 		}
 		var sweep []int
 		for c := 0x20; c < 0x10000; c++ {
@@ -665,20 +667,67 @@ func genEnc(g *h.Gen) {
 				sweep = append(sweep, c)
 			}
 		}
-		emitSweep("xterm", sweep, 6)
-		emitSweep("xterm", special, 4)
-		emitSweep("sun", special, 4)
-		emitSweep("vt220", special, 4)
-		emitSweep("linux", special, 4)
+		emitSweep(cs, cd, "xterm", sweep, 6)
+		emitSweep(cs, cd, "xterm", special, 4)
+		emitSweep(cs, cd, "sun", special, 4)
+		emitSweep(cs, cd, "vt220", special, 4)
+		emitSweep(cs, cd, "linux", special, 4)
+	}
+	// 1b. the alias spellings encoding/all.go registers (8859-9, ISO-8859-9, SJIS, EUCJP, EUCKR, 646, ISO646, ASCII, UTF8): the
+	// name selects the same code page as the canonical spelling.  Single-byte code pages: every rune some single-byte
+	// charset has (the runes in which two such code pages can differ) plus the special runes; multi-byte ones: Latin /
+	// Greek / Cyrillic, the special runes and a stride through the CJK part of the BMP (thorough: the whole BMP for both).
+	aliases := refAliasesOf(c17Charsets)
+	for ai, al := range aliases {
+		cd := newCodec(al)
+		if cd == nil {
+			continue
+		}
+		set := map[int]bool{}
+		for _, c := range special {
+			set[c] = true
+		}
+		switch {
+		case g.Thorough():
+			for c := 0x20; c < 0x10000; c++ {
+				set[c] = true
+			}
+		case refIsMulti(al):
+			for c := 0xa0; c < 0x500; c++ {
+				set[c] = true
+			}
+			for c := 0x3000 + ai%23; c < 0x10000; c += 23 {
+				set[c] = true
+			}
+		case !refIsUTF8(al) && !refIsASCII(al):
+			for _, c := range refSingleRepertoire() {
+				set[c] = true
+			}
+		}
+		var runes []int
+		for c := range set {
+			if c >= 0x20 && !(c >= 0xd800 && c < 0xe000) {
+				runes = append(runes, c)
+			}
+		}
+		sort.Ints(runes)
+		emitSweep(al, cd, "xterm", runes, 6)
 	}
 	// 2. single cells: combining, wide, last column, fallback registration histories, random entries
 	entries := []string{"xterm", "xterm-256color", "sun", "linux", "vt220", "ansi", "wy60", "vt52", "beterm", "screen", "st", "aixterm", "kterm"}
 	n := g.N(600, 20000)
 	combPool := []int{0x301, 0x308, 0x20dd, 0x200d, 'x', 0xfe0f, 0x2500, 0xe9, 0x4e16, 0x64b, 0x650, 0x301}
 	fbStrings := []string{"*", "+", "o", "ab", "!"}
+	histCharsets := append([]string{}, charsets...)
+	for i := 0; i < 6 && len(aliases) > 0; i++ { // alias spellings: a fifth of the histories
+		histCharsets = append(histCharsets, h.Pick(r, aliases))
+	}
 	for i := 0; i < n; i++ {
-		cs := h.Pick(r, charsets)
+		cs := h.Pick(r, histCharsets)
 		cd := newCodec(cs)
+		if cd == nil {
+			continue
+		}
 		entry := h.Pick(r, entries)
 		tw := r.Range(2, 6)
 		ops := []string{fmt.Sprintf("cfg %s %s %s %d", v, entry, cs, tw)}
